@@ -72,7 +72,31 @@ def _produce(ctx, rng, tmpdir):
     """Returns (mesh, producer name)."""
     import mouette as M
     k = rng.choice(["raw_surface", "raw_volume", "raw_polyline", "raw_points", "from_arrays", "loader", "procedural", "procedural", "procedural",
-                    "subdivision", "boundary", "dual", "spherify"])
+                    "subdivision", "boundary", "dual", "spherify", "reorder", "loader_other"])
+    if k == "reorder":
+        # a mesh produced by renumbering the vertices of another one (the source is dropped)
+        if rng.random() < 0.5:
+            z = surfaces.make(rng.randrange(2 ** 31), max_size=3)
+            src = build.surface(z["V"], z["F"], vrows=rng.choice(["list", "nprow", "vec"]))
+        else:
+            z = volumes.make(rng.randrange(2 ** 31), max_size=1)
+            src = build.volume(z["V"], z["C"])
+        perm = list(range(len(src.vertices)))
+        rng.shuffle(perm)
+        return M.mesh.mesh.reorder_vertices(src, perm if rng.random() < 0.5 else np.array(perm)), "reorder_vertices"
+    if k == "loader_other":
+        ext = rng.choice([".mesh", ".geogram_ascii", ".off", ".stl", ".tet", ".xyz"])
+        if ext == ".tet":
+            z = volumes.make(rng.randrange(2 ** 31), max_size=1)
+            src = build.volume(z["V"], z["C"])
+        elif ext == ".xyz":
+            src = build.pointcloud(np.array([[rng.uniform(-1, 1) for _ in range(3)] for _ in range(rng.randint(2, 10))]))
+        else:
+            z = surfaces.make(rng.randrange(2 ** 31), max_size=3, tri_only=True)
+            src = build.surface(z["V"], z["F"])
+        path = os.path.join(tmpdir, "q%d%s" % (rng.randrange(10 ** 6), ext))
+        M.mesh.save(src, path)
+        return M.mesh.load(path), "loader" + ext
     if k == "raw_surface":
         z = surfaces.make(rng.randrange(2 ** 31), max_size=3)
         return build.surface(z["V"], z["F"], vrows=rng.choice(["list", "tuple", "nprow", "vec"])), k
@@ -137,6 +161,19 @@ def _produce(ctx, rng, tmpdir):
 
 
 # ----------------------------------------------------------------------------- shadow
+def _store_precision(m):
+    """Arithmetic on a vertex stored as a single-precision row (binary STL loader) is single precision: tolerances follow the stored dtype."""
+    worst = 1.0
+    try:
+        for p in m.vertices:
+            dt = getattr(p, "dtype", None)
+            if dt is not None and dt.kind == "f" and dt.itemsize < 8:
+                worst = max(worst, float(np.finfo(dt).eps) / float(np.finfo(float).eps))
+    except Exception:
+        pass
+    return worst
+
+
 def _coords(m):
     return np.array([np.asarray(p, dtype=float).reshape(-1)[:3] for p in m.vertices], dtype=float).reshape(-1, 3)
 
@@ -154,6 +191,7 @@ class Shadow:
         self.V = _coords(m).copy()
         self.I = _indices(m)
         self.producer = producer
+        self.prec = _store_precision(m)  # 1 for double-precision coordinates; eps32/eps64 when the producer stores single-precision rows
         self.cls = type(m).__name__
 
 
@@ -202,6 +240,9 @@ def _check_operated(ctx, m, sh, want, op, tol, mech_prefix="transform"):
     V = _coords(m)
     ctx.obs("transform", op)
     scale = max(1.0, float(np.abs(want).max()) if want.size else 1.0)
+    tol = (max(tol, 2.3e-16) if sh.prec > 1 else tol) * sh.prec  # a value written into a single-precision row is rounded to it
+    if sh.prec > 1:
+        ctx.note("producer_stores_single_precision_coordinates:" + sh.producer)
     if V.shape != want.shape or not np.all(np.abs(V - want) <= tol * scale):
         diff = np.abs(V - want).max(axis=1) if V.shape == want.shape else None
         bad = int(np.argmax(diff)) if diff is not None else -1
@@ -363,7 +404,7 @@ def run_case(desc, ctx):
                     before = sh.V - t
                     ctx.call("translate", T.translate, m, M.Vec(-t), monitor="transform")
                     _check_operated(ctx, m, sh, sh.V - t, "translate", 1e-15)
-                    ctx.check(np.all(np.abs(sh.V - before) <= 1e-12 * max(1.0, np.abs(before).max())), "inverse", "translate", "inverse_does_not_restore",
+                    ctx.check(np.all(np.abs(sh.V - before) <= 1e-12 * sh.prec * max(1.0, np.abs(before).max())), "inverse", "translate", "inverse_does_not_restore",
                               "translate(t) then translate(-t) does not restore the coordinates", producer=sh.producer)
                     _compare_pool(ctx, pool, shadows, "translate", "translate", j)
             elif kind in ("rotate", "inverse_rotate"):
@@ -385,7 +426,7 @@ def run_case(desc, ctx):
                 if kind == "inverse_rotate":
                     ctx.call("rotate", T.rotate, m, R.inv(), None if oarg is None else M.Vec(o.copy()), monitor="transform")
                     _check_operated(ctx, m, sh, o + (sh.V - o) @ R.inv().as_matrix().T, "rotate", 1e-11)
-                    ctx.check(np.all(np.abs(sh.V - before) <= 1e-11 * max(1.0, np.abs(before).max())), "inverse", "rotate", "inverse_does_not_restore",
+                    ctx.check(np.all(np.abs(sh.V - before) <= 1e-11 * sh.prec * max(1.0, np.abs(before).max())), "inverse", "rotate", "inverse_does_not_restore",
                               "rotate(R) then rotate(R^-1) does not restore the coordinates", producer=sh.producer)
                     _compare_pool(ctx, pool, shadows, "rotate", "rotate", j)
             elif kind in ("scale", "inverse_scale"):
@@ -399,7 +440,7 @@ def run_case(desc, ctx):
                 if kind == "inverse_scale":
                     ctx.call("scale", T.scale, m, 1 / s, None if oarg is None else M.Vec(o.copy()), monitor="transform")
                     _check_operated(ctx, m, sh, o + (1 / s) * (sh.V - o), "scale", 1e-13)
-                    ctx.check(np.all(np.abs(sh.V - before) <= 1e-12 * max(1.0, np.abs(before).max())), "inverse", "scale", "inverse_does_not_restore",
+                    ctx.check(np.all(np.abs(sh.V - before) <= 1e-12 * sh.prec * max(1.0, np.abs(before).max())), "inverse", "scale", "inverse_does_not_restore",
                               "scale(s) then scale(1/s) does not restore the coordinates", producer=sh.producer)
                     _compare_pool(ctx, pool, shadows, "scale", "scale", j)
             elif kind == "scale_xyz":
@@ -428,9 +469,9 @@ def run_case(desc, ctx):
                 lo, hi = sh.V.min(axis=0), sh.V.max(axis=0)
                 ctx.obs("normalize", kind)
                 if centred:
-                    good = np.all(np.abs((lo + hi) / 2) <= 1e-11) and abs((hi - lo).max() - 2) <= 1e-11
+                    good = np.all(np.abs((lo + hi) / 2) <= 1e-11 * sh.prec) and abs((hi - lo).max() - 2) <= 1e-11 * sh.prec
                 else:
-                    good = np.all(np.abs(lo) <= 1e-11) and abs((hi - lo).max() - 1) <= 1e-11
+                    good = np.all(np.abs(lo) <= 1e-11 * sh.prec) and abs((hi - lo).max() - 1) <= 1e-11 * sh.prec
                 if not good:
                     ctx.violation("normalize", kind, "bounding_box_not_where_documented", "after normalising the bounding box is not where documented",
                                   lo=lo.tolist(), hi=hi.tolist(), producer=sh.producer)
